@@ -58,14 +58,38 @@ type pcase struct {
 	pqf     bool
 }
 
+var ctxTexts = []struct {
+	text string
+	err  error
+}{{"context canceled", context.Canceled}, {"context deadline exceeded", context.DeadlineExceeded}}
+
+// errFromText builds an error whose chain is determined by its text alone (so that a request line rebuilds it):
+// "context canceled" / "context deadline exceeded" are the context package's own errors, "<p>: context canceled" wraps
+// them with %w (with pkg/errors.Wrap when <p> starts with "pkg "); anything else is errors.New.
+func errFromText(t string) error {
+	for _, c := range ctxTexts {
+		if t == c.text {
+			return c.err
+		}
+		if strings.HasSuffix(t, ": "+c.text) {
+			prefix := strings.TrimSuffix(t, ": "+c.text)
+			if strings.HasPrefix(prefix, "pkg ") {
+				return pkgerrors.Wrap(c.err, prefix)
+			}
+			return fmt.Errorf("%s: %w", prefix, c.err)
+		}
+	}
+	return errors.New(t)
+}
+
 // buildErr constructs the handler's error; returns it, whether errors.Is(err, sentinel) must hold by construction,
 // and the texts of its parts.
 func (c *pcase) buildErr() (err error, isS bool, parts []string, multi bool) {
 	switch c.errKind {
 	case "nil":
 		return nil, false, nil, false
-	case "new":
-		return errors.New(c.errText[0]), false, []string{c.errText[0]}, false
+	case "new", "canceled", "wrapcanceled", "pkgcanceled", "deadline", "wrapdeadline":
+		return errFromText(c.errText[0]), false, []string{c.errText[0]}, false
 	case "sentinel":
 		return sentinel, true, []string{sentinel.Error()}, false
 	case "wrapw":
@@ -84,7 +108,7 @@ func (c *pcase) buildErr() (err error, isS bool, parts []string, multi bool) {
 				parts = append(parts, t+": "+sentinel.Error())
 				isS = true
 			} else {
-				me.Errors = append(me.Errors, errors.New(t))
+				me.Errors = append(me.Errors, errFromText(t))
 				parts = append(parts, t)
 			}
 		}
@@ -881,17 +905,32 @@ func rndMeta(r *wh.Rng, variant int) map[string]string {
 	return m
 }
 
-var errKinds = []string{"nil", "new", "sentinel", "wrapw", "wrappkg", "custom", "multi"}
+var errKinds = []string{"nil", "new", "sentinel", "wrapw", "wrappkg", "custom", "multi",
+	"canceled", "wrapcanceled", "pkgcanceled", "deadline", "wrapdeadline"}
 
 func (c *pcase) fillErr(r *wh.Rng, kind string) {
 	c.errKind = kind
 	c.errText, c.partS = nil, nil
 	switch kind {
 	case "nil", "sentinel":
+	case "canceled":
+		c.errText = []string{"context canceled"}
+	case "deadline":
+		c.errText = []string{"context deadline exceeded"}
+	case "wrapcanceled":
+		c.errText = []string{"boom " + rndStr(r, 5) + ": context canceled"}
+	case "pkgcanceled":
+		c.errText = []string{"pkg boom " + rndStr(r, 5) + ": context canceled"}
+	case "wrapdeadline":
+		c.errText = []string{"boom " + rndStr(r, 5) + ": context deadline exceeded"}
 	case "multi":
 		n := 1 + r.Intn(3)
 		for i := 0; i < n; i++ {
-			c.errText = append(c.errText, "part"+strconv.Itoa(i)+rndStr(r, 4))
+			t := "part" + strconv.Itoa(i) + rndStr(r, 4)
+			if r.Intn(4) == 0 { // a part that wraps the context package's errors
+				t += ": " + ctxTexts[r.Intn(2)].text
+			}
+			c.errText = append(c.errText, t)
 			c.partS = append(c.partS, r.Intn(3) == 0)
 		}
 	default:
@@ -1001,6 +1040,11 @@ func genRT(out *wh.Out, rng *wh.Rng, perRouter int) {
 	for _, ff := range filterFams {
 		for _, level := range []bool{false, true} {
 			proto := &pcase{mode: "rt", ptopic: "poison-" + rndStr(rng, 4), ctxT: "in-" + rndStr(rng, 5), ctxH: "h-" + rndStr(rng, 5), ctxS: "sub." + rndStr(rng, 5)}
+			if ff == "all" || ff == "is" || ff == "text-hit" {
+				// this handler consumes the poison topic itself (a re-processing / alerting handler behind the same middleware)
+				proto.ctxT = proto.ptopic
+				out.Count("rt.handler_on_poison_topic")
+			}
 			// one filter per router: text filters use a fixed needle
 			switch ff {
 			case "text-hit":
@@ -1280,7 +1324,7 @@ func genPQ2(out *wh.Out, rng *wh.Rng, reps int) {
 		}
 		// (2) one middleware value, different places: stand-alone then in a handler; two handlers of one Router
 		for _, lvl := range []string{"r", "h"} {
-			for _, shape := range []string{"sa,rt", "rt,rt2", "rt,sa", "rt2ok,rt", "rt,rt"} {
+			for _, shape := range []string{"sa,rt", "rt,rt2", "rt,sa", "rt2ok,rt", "rt,rt", "rtp,rt", "rt,rtp"} {
 				filter := []string{"all", "fall", "text:boom"}[rng.Intn(3)]
 				a, b := rndCase(rng, "sa", "new"), rndCase(rng, "sa", "new")
 				pt := "poison-" + rndStr(rng, 3)
@@ -1301,6 +1345,14 @@ func genPQ2(out *wh.Out, rng *wh.Rng, reps int) {
 				case "rt,rt":
 					setCtx(a, x)
 					setCtx(b, x)
+				case "rtp,rt": // the first handler consumes the poison topic itself
+					x[0] = pt
+					setCtx(a, x)
+					setCtx(b, y)
+				case "rt,rtp":
+					y[0] = pt
+					setCtx(a, x)
+					setCtx(b, y)
 				}
 				emitPQ2(out, lvl, "after", a, b)
 			}
